@@ -295,6 +295,10 @@ pub fn run(ctx: &Ctx) -> i32 {
         Letter::one(o(7, "ACS", &vec![100; 12])),
         Letter::one(o(7, "CAL", &(0..12).map(|i| if i < 6 { 200 } else { 0 }).collect::<Vec<_>>())),
     ];
+    {
+        let n = if ctx.quick() { 14 } else { 16 };
+        explore(ctx, &format!("COMBO: complete 12-step buildings, {n} subsystems absent/present"), Layered { slots: alpha::combo_slots(n), bases: alpha::bases(false) }, C06, shared.clone());
+    }
     explore(ctx, "seeded: shipped files + <=3 AUX-model lines", Wide { alphabet: seeded, bases: alpha::shipped_bases(), max_add: 3, repeat: false }, C06, shared.clone());
     finish(
         ctx,
